@@ -3,6 +3,7 @@
 package c08
 
 import (
+	"context"
 	"fmt"
 	"net/http"
 	"sync"
@@ -78,7 +79,7 @@ func (s *slowNet) SetLatency(d time.Duration) {
 func TestC08SlowTrials(t *testing.T) {
 	const name = "breaker-slow-trials"
 	sub := lab.Sub(name, "rapid, virtual time: breaker section accepted by the real config.Validate, balancer built the real way; backends answer after a drawn latency (0, 1 ms, timeout/2, timeout+1ms, 2.5x timeout, 4x timeout) so that requests overlap and trial requests outlive the breaker timeout; "+
-		"history of request arrivals / behaviour changes (good, 5xx, unreachable, abort mid-body, 4xx) / latency changes / time advances; then T0: all backends good (requests in flight succeed too), latency L and arrival gap d (timeout/8 .. 2x timeout) drawn; "+
+		"history of request arrivals / clients giving up on requests under way (1-3 at the same moment) / behaviour changes (good, 5xx, unreachable, abort mid-body, 4xx) / latency changes / time advances; then T0: all backends good (requests in flight succeed too), latency L and arrival gap d (timeout/8 .. 2x timeout) drawn; "+
 		"(a) arrivals every d for up to 200 steps: once more than timeout has passed since T0 and success_threshold+max_requests+4 requests that arrived after T0 were admitted and completed with 200, the breaker must be CLOSED and the next 3 arrivals admitted; "+
 		"(b) traffic pauses until nothing is in flight (every request must have returned), then at most success_threshold+max_requests+4 slow requests one at a time must leave the breaker CLOSED and the next 3 must be admitted and answered 200; "+
 		"20 s no-progress watchdog; non-trivial = breaker open/half-open or requests in flight at T0")
@@ -96,7 +97,7 @@ func TestC08SlowTrials(t *testing.T) {
 		n := rapid.IntRange(0, maxLen).Draw(rt, "n")
 		var hist []string
 		var viol, startState string
-		var inflightAtT0 int
+		var inflightAtT0, abandoned int
 		var recL, recD time.Duration
 		reached := false
 		wd := lab.StartWatchdog(t.Name(), name, lab.NoProgress, func() any {
@@ -129,6 +130,7 @@ func TestC08SlowTrials(t *testing.T) {
 
 			type call struct {
 				id       int
+				cancel   context.CancelFunc // the client gives up
 				done     chan struct{}
 				status   int
 				admitted bool
@@ -153,11 +155,15 @@ func TestC08SlowTrials(t *testing.T) {
 			}
 			start := func(recovery bool) *call {
 				before := sn.Entered()
-				x := &call{id: nextID, done: make(chan struct{}), recovery: recovery}
+				r := lab.Request("GET", "/x", fmt.Sprintf("10.0.0.%d:4000", 1+nextID%5), nil)
+				ctx, cancel := context.WithCancel(r.Context())
+				r = r.WithContext(ctx)
+				x := &call{id: nextID, cancel: cancel, done: make(chan struct{}), recovery: recovery}
 				nextID++
 				go func() {
 					defer close(x.done)
-					x.status, _, _, _ = lab.Serve(lb, lab.Request("GET", "/x", fmt.Sprintf("10.0.0.%d:4000", 1+x.id%5), nil))
+					defer cancel()
+					x.status, _, _, _ = lab.Serve(lb, r)
 				}()
 				synctest.Wait()
 				x.admitted = sn.Entered() > before
@@ -189,8 +195,19 @@ func TestC08SlowTrials(t *testing.T) {
 			for i := 0; i < n; i++ {
 				k := rapid.IntRange(0, 99).Draw(rt, "op")
 				switch {
-				case k < 50:
+				case k < 44 || k < 50 && len(inflight) == 0:
 					start(false)
+				case k < 50:
+					// clients give up on requests that are under way (one, or several at the same moment): such a request
+					// ends in whatever state the breaker is in by now
+					m := rapid.IntRange(1, min(3, len(inflight))).Draw(rt, "abandon")
+					for _, x := range inflight[:m] {
+						x.cancel()
+						hist = append(hist, fmt.Sprintf("client-abandons#%d", x.id))
+					}
+					synctest.Wait()
+					reap()
+					abandoned += m
 				case k < 62:
 					bi := rapid.IntRange(0, nb-1).Draw(rt, "backend")
 					b := rapid.SampledFrom(behaviours).Draw(rt, "behaviour")
@@ -300,6 +317,9 @@ func TestC08SlowTrials(t *testing.T) {
 		}
 		if inflightAtT0 > 0 {
 			labels = append(labels, "in-flight-at-T0")
+		}
+		if abandoned > 0 {
+			labels = append(labels, "requests-abandoned-by-their-clients")
 		}
 		sub.Case(map[string]any{"cfg": c, "strategy": cfg.LoadBalancer.Strategy, "backends": len(cfg.Backends), "history": hist}, (startState != "CLOSED" && startState != "") || inflightAtT0 > 0, labels...)
 		if viol != "" {
